@@ -95,6 +95,46 @@ func c19(c *hx.Ctx) {
 				taken: strm.takenCount() - before, closed: strm.isClosed()})
 		}
 	}
+	// back-to-back RecvMsg responses: a genuine message that the application has not read
+	// yet, immediately followed by a forgery decoded by the same receive goroutine, (a) with a
+	// Recv call already waiting, (b) with the client's main loop blocked in a stream write
+	// (relay back pressure) so that the application reads after the forgery has arrived
+	forgedAfter := []string{"third-claims-a", "flip-body", "self-claims-a", "other-context", "third-own", "transplant"}
+	nB2B := 2 * len(forgedAfter)
+	prev2 := preScript
+	preScript = func(g *genState, i int) {
+		base := nTargeted + nStateful
+		if i < base {
+			prev2(g, i)
+			return
+		}
+		j := i - base
+		if j >= nB2B {
+			return
+		}
+		r := g.r
+		cls := forgedAfter[j%len(forgedAfter)]
+		att := []string{"", "third", "a"}[j%3]
+		r.apply(&sop{kind: "conn"})
+		g.epoch++
+		r.apply(&sop{kind: "resp", resp: rOpened(g.epoch)})
+		hm := r.tab.craft("honest", g.body(), g.nextSeq, 0, encoding{})
+		g.nextSeq++
+		fm := r.tab.craft(cls, g.body(), g.nextSeq, j, encoding{att: att})
+		g.nextSeq++
+		if j < len(forgedAfter) {
+			r.apply(&sop{kind: "recv"})
+			r.apply(&sop{kind: "resp", resp: rRecv(hm), extra: rRecv(fm), note: "honest then " + cls})
+			g.class("b2b:pending-recv:" + cls)
+		} else {
+			r.apply(&sop{kind: "hold"})
+			r.apply(&sop{kind: "send", body: g.body()})
+			r.apply(&sop{kind: "resp", resp: rRecv(hm), extra: rRecv(fm), note: "honest then " + cls})
+			r.apply(&sop{kind: "recv"})
+			r.apply(&sop{kind: "release"})
+			g.class("b2b:loop-held:" + cls)
+		}
+	}
 	defer func() { preScript = nil }()
 	runScripts(c, c.N, &profC19, fixedC19(), false, func(g *genState, desc map[string]any) {
 		// direct oracle 1: everything Recv returned is one of A's honest messages, unaltered
